@@ -493,10 +493,125 @@ func ruleShrinkOnlyWhenExtra(c *Ctx) {
 
 var _ = types.Typ
 
+// ruleLowSpaceAtoms: the storage-threshold filter is `!IsLowSpace`. A store is
+// "not low on space" outright (return false) only when it has no statistics yet
+// or it is a new store (few regions) whose *available* space is above the
+// initial minimum; every other answer is the available-ratio comparison.
+func ruleLowSpaceAtoms(c *Ctx) {
+	P := c.P
+	rule := c.Prop + "/filter-predicates"
+	fn := P.Method("server/core", "StoreInfo", "IsLowSpace")
+	si := func(m string) Callee { return F(P.Method("server/core", "StoreInfo", m)) }
+	maxRegions, ok1 := constIntObj(P.obj("server/core", "initialMaxRegionCounts"))
+	minSpace, ok2 := constIntObj(P.obj("server/core", "initialMinSpace"))
+	if !ok1 || !ok2 {
+		undecidedf("initialMaxRegionCounts / initialMinSpace are not integer constants")
+	}
+	regionCount := P.Field("server/core", "StoreInfo", "regionCount")
+	noStats := guardRel("no statistics yet", "==", resultOfCall(si("GetStoreStats")), isNilConst)
+	few := guardRel("region count < initialMaxRegionCounts", "<", orPred(loadOfField(regionCount), resultOfCall(si("GetRegionCount"))), isConstInt(maxRegions))
+	room := guardRel("available space > initialMinSpace", ">", resultOfCall(si("GetAvailable")), isConstInt(minSpace))
+	c.need(rule, fn, "answer \"not low on space\" without looking at the ratio", func(x ssa.Instruction) bool {
+		r, ok := x.(*ssa.Return)
+		if !ok || len(r.Results) != 1 {
+			return false
+		}
+		b, isC := constBool(retVal(r, 0))
+		return isC && !b
+	}, []Ev{noStats, few, room}, func(h []bool) bool { return h[0] || (h[1] && h[2]) },
+		"only without statistics, or for a store with few regions whose available (not total) space exceeds the initial minimum")
+	ratio := false
+	for _, b := range fn.Blocks {
+		if r, ok := b.Instrs[len(b.Instrs)-1].(*ssa.Return); ok && len(r.Results) == 1 {
+			if bo, ok := retVal(r, 0).(*ssa.BinOp); ok && bo.Op == token.LSS && valueIsCallTo(bo.X, si("AvailableRatio")) {
+				ratio = true
+			}
+		}
+	}
+	c.Check(ratio, rule, "ratio test in "+fnName(fn), "otherwise low space means available ratio < 1 - lowSpaceRatio", P.pos(fn.Pos()), "")
+}
+
+// ruleNoInPlaceCompaction: candidate lists are borrowed — NewCandidates keeps
+// the caller's slice, and the checkers pass the same region-store slice to
+// several selections in a row. Dropping elements by appending onto a re-slice
+// of a borrowed slice (x[:0]) rewrites the caller's elements; subsets must be
+// built in a fresh slice. (Reordering in place — Sort, Shuffle, Reverse — and
+// shortening — Top — lose nothing.)
+func ruleNoInPlaceCompaction(c *Ctx) {
+	P := c.P
+	rule := c.Prop + "/candidate-lists-not-rewritten"
+	n := 0
+	for _, fn := range P.Funcs {
+		if fnPkgPath(fn) != modPath+"/server/schedule/filter" || P.isScaffold(fn) {
+			continue
+		}
+		k := 0
+		for _, b := range fn.Blocks {
+			for _, ins := range b.Instrs {
+				cl, ok := ins.(*ssa.Call)
+				if !ok {
+					continue
+				}
+				bi, isB := cl.Call.Value.(*ssa.Builtin)
+				if !isB || bi.Name() != "append" || len(cl.Call.Args) != 2 {
+					continue
+				}
+				n++
+				k++
+				// roots of the appended-to slice through loop φs and earlier appends
+				var borrowed ssa.Value
+				seen := map[ssa.Value]bool{}
+				var walk func(v ssa.Value, depth int)
+				walk = func(v ssa.Value, depth int) {
+					if v == nil || seen[v] || depth > 8 {
+						return
+					}
+					seen[v] = true
+					switch x := v.(type) {
+					case *ssa.Phi:
+						for _, e := range x.Edges {
+							walk(e, depth+1)
+						}
+					case *ssa.Call:
+						if b2, ok := x.Call.Value.(*ssa.Builtin); ok && b2.Name() == "append" {
+							walk(x.Call.Args[0], depth+1)
+						}
+					case *ssa.Slice:
+						// a re-slice shares the backing array of what it slices
+						root := x.X
+						for {
+							if s2, ok := root.(*ssa.Slice); ok {
+								root = s2.X
+								continue
+							}
+							break
+						}
+						switch r := root.(type) {
+						case *ssa.Parameter:
+							borrowed = r
+						case *ssa.UnOp:
+							if fieldOfAddr(r.X) != nil {
+								borrowed = r
+							}
+						}
+					}
+				}
+				walk(cl.Call.Args[0], 0)
+				c.Check(borrowed == nil, rule, fmt.Sprintf("append #%d in %s", k, fnName(fn)), "never onto a re-slice of a parameter or of a candidate list field (the caller's elements would be overwritten)", P.instrPos(cl), "")
+			}
+		}
+	}
+	if n < 5 {
+		c.Undec(rule, "appends in server/schedule/filter", "at least 5", "", fmt.Sprintf("found %d", n))
+	}
+}
+
 func init() {
 	register("C10", "Replica repair never targets bad stores nor shrinks healthy replication", func(c *Ctx) {
 		c.Group("C10/selector-filters", "the store selector's filter chain: excluded (region's stores), storage threshold, special use, store state, isolation, caller and rule filters, and a strict store-state gate last", func() { ruleSelectorFilters(c) })
 		c.Group("C10/filter-predicates", "StoreStateFilter's condition lists contain the stated conditions and a match rejects; label-constraint, threshold and excluded filters test what they promise; every filter of a set is evaluated", func() { ruleFilterPredicates(c) })
+		c.Group("C10/low-space", "IsLowSpace exempts only stores without statistics or new stores with enough available space", func() { ruleLowSpaceAtoms(c) })
+		c.Group("C10/candidate-lists-not-rewritten", "the filter package builds subsets in fresh slices: candidate lists are shared with the caller", func() { ruleNoInPlaceCompaction(c) })
 		c.Group("C10/target-from-selector", "every peer added by a checker is placed on the store the selector returned, and only when it returned one", func() { ruleRepairTargets(c) })
 		c.Group("C10/shrink-only-when-extra", "outright removals only with more voters than configured (replica checker) or as orphan with all rules satisfied (rule checker); replacements add before they remove", func() { ruleShrinkOnlyWhenExtra(c) })
 	})
